@@ -35,13 +35,24 @@ impl RouteRef {
         let mut cum = 0.0;
         let one_degree = 1.745_329_251_994_329_5e-2 / 30.48;
         let (c0, c1, c2) = (tp.curve_coeff_0.value, tp.curve_coeff_1.value, tp.curve_coeff_2.value);
+        // "walking the route's own elevation points": the differences inside each link are accumulated, so where the
+        // recorded elevations of two consecutive links disagree at their junction (validation allows that) the later
+        // link is shifted onto the end of the earlier one; for continuous networks the shift is exactly 0
+        let mut shift = 0.0;
+        let mut last_y: Option<f64> = None;
         for (k, &i) in seq.iter().enumerate() {
             let l = &links[i];
+            if let (Some(ly), Some(first)) = (last_y, l.elevs.first()) {
+                shift = ly - first.elev.value;
+            }
             for (j, e) in l.elevs.iter().enumerate() {
                 if k > 0 && j == 0 {
                     continue;
                 }
-                eref.push((base[k] + e.offset.value, e.elev.value));
+                eref.push((base[k] + e.offset.value, e.elev.value + shift));
+            }
+            if let Some(e) = l.elevs.last() {
+                last_y = Some(e.elev.value + shift);
             }
             if l.headings.is_empty() {
                 cref.push((base[k], cum, 0.0));
